@@ -1,8 +1,15 @@
+//! mc-engine: whole-ledger explorations over the standard transaction menu (C01 C02 C03 C04 C05).
 use mc_core::Ctx;
+
+mod c05;
+mod ledger_bfs;
 
 fn main() {
     let ctx = Ctx::from_args();
     match ctx.id.as_str() {
+        "C03" => ledger_bfs::run(ctx, ledger_bfs::Mode::C03),
+        "C04" => ledger_bfs::run(ctx, ledger_bfs::Mode::C04),
+        "C05" => c05::run(ctx),
         other => mc_core::machinery_error(&format!("mc-engine does not serve {other}")),
     }
 }
